@@ -1,5 +1,9 @@
 import S3V.Model.Xml
 import S3V.Thm.XmlWf
+import S3V.Thm.XmlEscape
+import S3V.Thm.XmlRoundtrip
+import S3V.Thm.XmlStrict
+import S3V.Thm.XmlMeaning
 import S3V.Gen.XmlSer
 import S3V.Gen.XmlDe
 import S3V.Gen.XmlSmithy
@@ -155,5 +159,159 @@ theorem C13_tables_wf (t : Ty) :
       cases hs : deSchema t with
       | none => simp [hdd, hs] at h1
       | some s => exact ⟨s, rfl, by simpa [hdd, hs, WfSch] using h1⟩
+
+
+/-! ## the generic codec -/
+
+/-- **Escaping is lossless**: `unescape (escape t) = t` for every byte string `t` — all text content, including the
+markup characters `< > & ' "`, leading / trailing white space and non-ASCII. -/
+theorem C13_unescape_escape (t : Bytes) : unescape (escape t) = some t := unescape_escape t
+
+/-- **Round trip, generic** (by mutual structural induction on the schema; no bound on sizes, depths or list
+lengths). For every well-formed schema `s` and every value `v` of it in normal form (`Fits`), decoding the
+encoded content yields `v` and leaves exactly what followed. The content of an element is always followed by the
+element's end tag `stop n`; that is the form stated (an empty string encodes as *no* event, and `Deserializer::text`
+recognises it by the end tag that follows). Normal form: a flattened list member is not the empty list
+(`Some([])` / `[]` write nothing at all and read back as `None` / `MissingField`) — these values have no restXml
+representation of their own; every other value is covered. -/
+theorem C13_codec_roundtrip (X : Ext) (s : Sch) (hwf : WfSch s) (v : Val) (hfit : Fits X s v)
+    (n : Bytes) (rest : List Ev) :
+    decode X s (encode s v ++ .stop n :: rest) = .ok (v, .stop n :: rest) :=
+  decode_encode X s v hwf hfit n rest
+
+/-- **Round trip of whole documents**: `T::deserialize` followed by `expect_eof` applied to what `T::serialize`
+wrote yields the value and nothing is left — for the generated roots (`named`, with or without `xmlns`) and the
+two-level wrapper of `AssumeRoleOutput`. -/
+theorem C13_codec_roundtrip_doc (X : Ext) (s : Sch) (hwf : WfSch s) (v : Val) (hfit : Fits X s v) :
+    (∀ tag ns, decodeDoc X (.named tag) s (encodeDoc (.named tag ns) s v) = .ok v) ∧
+    (∀ outer inner ns, decodeDoc X (.nested outer inner) s (encodeDoc (.nested outer inner ns) s v) = .ok v) :=
+  ⟨fun tag ns => decodeDoc_encodeDoc_named X tag ns s v hwf hfit,
+   fun o i ns => decodeDoc_encodeDoc_nested X o i ns s v hwf hfit⟩
+
+/-- **Round trip for every generated type** (the table obligations feed the generic theorem): for every type `t`
+with a `DeserializeContent` impl, with `sd` / `ss` the schemas extracted from its deserialiser / serialiser impl,
+what the serialiser writes for a value in normal form is read back by the deserialiser as the same value, as the
+content of any element and as a whole document under any root. -/
+theorem C13_codec_roundtrip_types (X : Ext) (t : Ty) (hde : (deDef t).isSome = true) :
+    ∃ sd ss, deSchema t = some sd ∧ serSchema t = some ss ∧ ∀ v, Fits X sd v →
+      (∀ n rest, decode X sd (encode ss v ++ .stop n :: rest) = .ok (v, .stop n :: rest)) ∧
+      (∀ tag ns, decodeDoc X (.named tag) sd (encodeDoc (.named tag ns) ss v) = .ok v) ∧
+      (∀ o i ns, decodeDoc X (.nested o i) sd (encodeDoc (.nested o i ns) ss v) = .ok v) := by
+  obtain ⟨⟨sd, h1, h2⟩, _⟩ := C13_ser_schema_eq_de_schema t hde
+  obtain ⟨_, hw⟩ := C13_tables_wf t
+  obtain ⟨sd', h1', hwf⟩ := hw hde
+  rw [h1] at h1'; cases h1'
+  refine ⟨sd, sd.serView, h1, h2, ?_⟩
+  intro v hfit
+  refine ⟨?_, ?_, ?_⟩
+  · intro n rest; rw [encode_serView]; exact decode_encode X sd v hwf hfit n rest
+  · intro tag ns
+    have := decodeDoc_encodeDoc_named X tag ns sd v hwf hfit
+    simpa [encodeDoc, encode_serView] using this
+  · intro o i ns
+    have := decodeDoc_encodeDoc_nested X o i ns sd v hwf hfit
+    simpa [encodeDoc, encode_serView] using this
+
+/-- the hand-written `GetBucketLocationOutput` (xml/mod.rs): `Some(constraint)` with a non-empty constraint and
+`None` come back; `Some("")` is written like `None` (not in normal form) -/
+theorem C13_bucket_location_roundtrip (X : Ext) (tag : Bytes) (ns : Option Bytes) (s : Sch) :
+    (∀ b : Bytes, b ≠ [] → utf8Valid (escape b) = true →
+      decodeDoc X (.location tag) s (encodeDoc (.location tag ns) s (.struct [.one (.str b)])) = .ok (.struct [.one (.str b)])) ∧
+    decodeDoc X (.location tag) s (encodeDoc (.location tag ns) s (.struct [.absent])) = .ok (.struct [.absent]) := by
+  constructor
+  · intro b hb hv
+    have he : escape b ≠ [] := fun h => hb (escape_eq_nil.mp h)
+    have hne : ∀ x : Bytes, x ≠ [] → textEv x = [.text x] := fun x hx => by simp [textEv, hx]
+    simp only [decodeDoc, encodeDoc, hne _ he, List.cons_append, List.nil_append, List.length_cons, List.length_nil]
+    simp only [forEach, skipText, if_true, FVal.isAbsent, textOf, decodeStr_escape hv, expectEnd, expectEof]
+    cases b with
+    | nil => exact absurd rfl hb
+    | cons c cs => simp
+  · simp only [decodeDoc, encodeDoc, List.length_cons, List.length_nil]
+    simp [forEach, skipText, FVal.isAbsent, textOf, decodeStr, utf8Valid_nil, unescape, expectEnd, expectEof]
+
+/-! ## strictness -/
+
+/-- **Schema-strict acceptance** — the five clauses of the property, each a fact about the decoder that mirrors
+the Rust code statement by statement:
+
+1. *expected root, nothing after the root*: an accepted document is `text* <root …> content text* </root> text*`
+   and the end of input — no second element, no stray end tag, no tokeniser error anywhere
+   (text outside the root is skipped, which is finding `xml-text-outside-root`);
+2. *known elements*: the element-name dispatch of a struct (`decodeField`) and of a union (`decodeVariant`) succeeds
+   only for the element name of a member / variant;
+3. *no repeated single-valued member*: when the member an element name belongs to is not a flattened list and already
+   has a value, the dispatch fails with `DuplicateField`; a successful dispatch leaves the member with a value, and no
+   dispatch ever removes a value — so the second element of such a member is always refused;
+4. *required members present*: a struct value is only produced with every required member set. -/
+theorem C13_decode_strict (X : Ext) :
+    (∀ (root : Bytes) (s : Sch) (evs : List Ev) (v : Val), decodeDoc X (.named root) s evs = .ok v →
+      ∃ pre a body post mid tail,
+        evs = pre ++ .start root a :: body ∧ pre.all Ev.isText = true ∧ decode X s body = .ok (v, post) ∧
+        post = mid ++ .stop root :: tail ∧ mid.all Ev.isText = true ∧ tail.all Ev.isText = true) ∧
+    (∀ (fs : Flds) (name : Bytes) (evs : List Ev) (acc : List FVal) (r : List FVal × List Ev),
+      decodeField X fs name evs acc = .ok r → name ∈ fs.tags) ∧
+    (∀ (vars : Vars) (name : Bytes) (evs : List Ev) (r : Val × List Ev),
+      decodeVariant X vars name evs = .ok r → name ∈ vars.tags) ∧
+    (∀ (fs : Flds) (acc : List FVal) (name : Bytes) (evs : List Ev) (shape : Shape) (slot : FVal),
+      firstSlot fs acc name = some (shape, slot) → shape ≠ .flat → slot.isAbsent = false →
+      decodeField X fs name evs acc = .error .duplicateField) ∧
+    (∀ (fs : Flds) (acc : List FVal) (name : Bytes) (evs : List Ev) (acc' : List FVal) (r : List Ev),
+      decodeField X fs name evs acc = .ok (acc', r) →
+      (∃ shape slot, firstSlot fs acc' name = some (shape, slot) ∧ slot.isAbsent = false) ∧
+      (∀ name' shape slot, firstSlot fs acc name' = some (shape, slot) → slot.isAbsent = false →
+        ∃ slot', firstSlot fs acc' name' = some (shape, slot') ∧ slot'.isAbsent = false)) ∧
+    (∀ (fs : Flds) (evs rest : List Ev) (v : Val), decode X (.struct fs) evs = .ok (v, rest) →
+      ∃ fvs, v = .struct fvs ∧ ReqPresent fs fvs) :=
+  ⟨fun _ _ _ _ h => decodeDoc_named_ok X h,
+   decodeField_known X,
+   decodeVariant_known X,
+   decodeField_repeated X,
+   fun fs acc name evs acc' r h =>
+     ⟨decodeField_fills X fs acc name evs acc' r h, decodeField_keeps X fs acc name evs acc' r h⟩,
+   fun _ _ _ _ h => decode_struct_required X h⟩
+
+/-! ## meaning -/
+
+/-- **An accepted document is given its XML meaning** — full statement, for the character data of a string element
+`<name>run</name>`: whatever mix of text with references, CDATA sections, comments and PIs the run is written as,
+the decoder returns the string it denotes. FALSE today (findings `xml-cdata-dropped`, `xml-comment-splits-text`;
+kernel-checked counterexamples in `S3V/Findings/C13.lean`). -/
+def C13_decode_meaning_full (X : Ext) : Prop :=
+  ∀ (run : List QEv) (name : Bytes) (rest : List QEv) (m : Bytes), charsMeaning run = some m →
+    readStringElement X name (deEvents (run ++ .stop name :: rest)) = .ok (.str m, deEvents rest)
+
+/-- the part that holds: character data that is not *interrupted* (`XmlSpec.interrupted`, a decidable predicate: a
+non-empty CDATA section, or a second text piece after a comment / PI / CDATA section) — i.e. plain text with entity
+and character references, with comments / PIs / empty CDATA sections only before or after it. -/
+theorem C13_decode_meaning_partial (X : Ext) (run : List QEv) (name : Bytes) (rest : List QEv) (m : Bytes)
+    (hm : charsMeaning run = some m) (hplain : interrupted run = false) :
+    readStringElement X name (deEvents (run ++ .stop name :: rest)) = .ok (.str m, deEvents rest) :=
+  read_uninterrupted X name rest run m hm hplain
+
+/-! ## non-vacuity -/
+
+/-- the schema of `Tagging`: `<TagSet><Tag><Key>…</Key><Value>…</Value></Tag>*</TagSet>` -/
+def taggingSch : Sch :=
+  .struct (.cons t_TagSet .req (.wrapped t_Tag)
+    (.struct (.cons t_Key .opt .single .str (.cons t_Value .opt .single .str .nil))) .nil)
+
+example : optSchBeq (deSchema .Tagging) (some taggingSch) = true := by decide +kernel
+example : WfSch taggingSch := by decide +kernel
+
+/-- two tags; the first key is ` <a>&'" é `, the second tag has an empty value and no key -/
+def taggingVal : Val :=
+  .struct [.many [.struct [.one (.str [32, 60, 97, 62, 38, 39, 34, 32, 195, 169, 32]), .one (.str [98])],
+                  .struct [.absent, .one (.str [])]]]
+
+example (X : Ext) : Fits X taggingSch taggingVal := by
+  simp only [taggingSch, taggingVal, Fits, FitsFields]
+  refine ⟨?_, trivial⟩
+  intro v hv
+  simp only [List.mem_cons, List.not_mem_nil, or_false] at hv
+  rcases hv with hv | hv <;> subst hv <;> simp only [Fits, FitsFields, and_true, true_and] <;> decide
+
+example : charsMeaning [.comment, .text [97, 38, 108, 116, 59], .cdata []] = some [97, 60] ∧
+    interrupted [.comment, .text [97, 38, 108, 116, 59], .cdata []] = false := by decide
 
 end S3V.C13
